@@ -198,6 +198,7 @@ fn main() {
     let args: Vec<String> = std::env::args().collect();
     // (before anything else touches the library: the child process of a cold-start probe)
     if args.get(1).map(|s| s.as_str()) == Some("coldstart") { scen_burst::coldstart_child(&args[2..]); return; }
+    if args.get(1).map(|s| s.as_str()) == Some("bigproof") { scen_sweep::bigproof_child(&args[2..]); return; }
     if args.get(1).map(|s| s.as_str()) == Some("debugjson") { debug_json(); return; }
     if args.get(1).map(|s| s.as_str()) == Some("fixtures") {
         match fixtures::check_all() {
